@@ -38,20 +38,30 @@ Theorem C19_no_spawn_while_waiting : forall cf h st tr e sid n x, wk_services cf
 Proof. exact no_spawn_while_waiting. Qed.
 Print Assumptions C19_no_spawn_while_waiting.
 
-(* ---- the service takes the name: held messages exactly once, in arrival order, subject to policy; StartServiceByName
-        callers answered; nothing is left waiting.  (Together with C19_one_fate: never again.) *)
+(* ---- the service takes the name.  The outputs are exactly: SUCCESS to the waiting StartServiceByName callers, then for every held
+        message in arrival order what [release] says, then the RequestName reply, which is always PRIMARY_OWNER.  [release] treats
+        each held message on its own (bus_dispatch_matches): passed on to the new owner, or exactly one error to ITS sender --
+        AccessDenied (policy), LimitsExceeded (the sender has max_replies_per_connection calls open), NotSupported (the message
+        carries a unix fd and the owner did not negotiate fd passing) -- and carries on with the next; nobody is left waiting.
+        (Together with C19_one_fate: never again.) *)
 Theorem C19_held_once_in_order : forall cf h st tr c s k, wk_services cf /\ wk_history h -> after cf h = (st, tr) ->
   connected st c = true -> assoc k st.(st_owners) = None ->
   let W := waiting tr (Wk k) in
   let o := snd (step cf st (ERequest c s k)) in
-  let allowed := fun w : call => cf.(pol_deliver) (k :: names_of st.(st_owners) c) w.(c_class) in
-  filter is_fwd o = map (fwd_to c) (filter (fun w => w.(c_auto) && live tr w.(c_conn) && allowed w) W) /\
-  filter is_err o = map (err_to EAccessDenied) (filter (fun w => w.(c_auto) && live tr w.(c_conn) && negb (allowed w)) W) /\
-  filter is_started o = map started_to (filter (fun w => live tr w.(c_conn) && negb w.(c_auto)) W) /\
-  In (ODrv c s 1) o /\
+  let names := k :: names_of st.(st_owners) c in
+  let rel := snd (release cf (live tr) names (fd_capable st c) c st.(st_replies) W) in
+  o = map started_to (filter (fun w => live tr w.(c_conn) && negb w.(c_auto)) W) ++ rel ++ [ODrv c s 1] /\
+  Forall2 (release_outcome (live tr) c) (filter (fun w => negb (live tr w.(c_conn) && negb w.(c_auto))) W) rel /\
   waiting (tr ++ [(ERequest c s k, o)]) (Wk k) = [].
 Proof. exact held_once_in_order. Qed.
 Print Assumptions C19_held_once_in_order.
+
+(* per-message independence of the release, for any list of waiting calls and any state of the reply table *)
+Theorem C19_release_per_message : forall cf alive names fdok o W replies,
+  Forall2 (release_outcome alive o) (filter (fun w => negb (alive w.(c_conn) && negb w.(c_auto))) W)
+          (snd (release cf alive names fdok o replies W)).
+Proof. exact release_per_message. Qed.
+Print Assumptions C19_release_per_message.
 
 (* ---- failure: the started process exits with a status other than 0, is killed by a signal or cannot be executed: every
         caller waiting for a name whose pending activation has the same Exec line is answered exactly once (connected:
@@ -101,9 +111,9 @@ Theorem C19_held_once_in_order_across_reload : forall cf h st tr e c s k,
   let st1 := fst (step cf st e) in
   let o := snd (step cf st1 (ERequest c s k)) in
   let W := waiting tr (Wk k) in
-  let allowed := fun w : call => cf.(pol_deliver) (k :: names_of st.(st_owners) c) w.(c_class) in
-  filter is_fwd o = map (fwd_to c) (filter (fun w => w.(c_auto) && live tr w.(c_conn) && allowed w) W) /\
-  filter is_started o = map started_to (filter (fun w => live tr w.(c_conn) && negb w.(c_auto)) W) /\
+  let names := k :: names_of st.(st_owners) c in
+  o = map started_to (filter (fun w => live tr w.(c_conn) && negb w.(c_auto)) W) ++
+      snd (release cf (live tr) names (fd_capable st c) c st.(st_replies) W) ++ [ODrv c s 1] /\
   waiting ((tr ++ [(e, snd (step cf st e))]) ++ [(ERequest c s k, o)]) (Wk k) = [].
 Proof. exact held_once_in_order_across_reload. Qed.
 Print Assumptions C19_held_once_in_order_across_reload.
@@ -232,7 +242,7 @@ Print Assumptions C19_helper_total.
 
 (* ---- non-vacuity *)
 Example ex_wk_services : wk_services (std_cfg [mkService (Wk 1) 1 true; mkService (Wk 2) 1 true] 50) /\
-  wk_history [EConnect; ESend 0 1 (Wk 1) false 0; EReload 0 2; ESetServices [mkService (Wk 2) 1 true]; ERequest 0 3 1].
+  wk_history [EConnect false; ESend 0 1 (Wk 1) false 0; EReload 0 2; ESetServices [mkService (Wk 2) 1 true]; ERequest 0 3 1].
 Proof.
   split; [intros s [<-|[<-|[]]]; eexists; reflexivity|].
   intros e [<-|[<-|[<-|[<-|[<-|[]]]]]]; simpl; auto. intros s [<-|[]]. eexists. reflexivity.
@@ -242,8 +252,8 @@ Qed.
    file removed; the name is taken: replies and messages in order *)
 Example ex_history :
   snd (run (std_cfg [mkService (Wk 1) 1 true] 50) (start (std_cfg [mkService (Wk 1) 1 true] 50))
-           [EConnect; EConnect; ESend 0 1 (Wk 1) false 0; EStart 1 1 (Wk 1); ESend 1 2 (Wk 1) false 2; ESend 0 2 (Wk 1) false 0;
-            EReload 0 9; ESetServices []; EConnect; ERequest 2 1 1])
+           [EConnect false; EConnect false; ESend 0 1 (Wk 1) false 0; EStart 1 1 (Wk 1); ESend 1 2 (Wk 1) false 2; ESend 0 2 (Wk 1) false 0;
+            EReload 0 9; ESetServices []; EConnect false; ERequest 2 1 1])
   = [[]; []; [OSpawn 0 (Wk 1) 1]; []; []; []; [ODrv 0 9 0]; []; [];
      [OStarted 1 1 1 1; OFwd 2 0 0 1; OErr 1 2 2 EAccessDenied; OFwd 2 3 0 2; ODrv 2 1 1]].
 Proof. vm_compute. reflexivity. Qed.
@@ -257,6 +267,17 @@ Proof.
   repeat split; try (vm_compute; reflexivity).
   intros files [H|[H|[]]]; inversion H; subst; repeat constructor; simpl; tauto.
 Qed.
+
+(* refusals for reasons other than policy, each for its own message only: the sender (fd-capable, two reply slots) holds a plain call
+   (class 8 = reply expected), a call carrying a unix fd (12), a third call (8: it takes the second slot, the refused one took none) and a fire-and-forget message (0);
+   another sender holds one call; the service connects without fd passing and takes the name *)
+Example ex_release_mixed :
+  let cf := std_cfg2 [mkService (Wk 1) 1 true] 50 2 in
+  last (snd (run cf (start cf)
+           [EConnect true; EConnect false; ESend 0 1 (Wk 1) false 8; ESend 0 2 (Wk 1) false 12; ESend 1 1 (Wk 1) false 8;
+            ESend 0 3 (Wk 1) false 8; ESend 0 4 (Wk 1) false 0; EConnect false; ERequest 2 1 1])) []
+  = [OFwd 2 0 0 1; OErr 0 1 2 ENotSupported; OFwd 2 2 1 1; OFwd 2 3 0 3; OFwd 2 4 0 4; ODrv 2 1 1].
+Proof. vm_compute. reflexivity. Qed.
 
 Example ex_helper_ok : helper good_env [97; 46; 98] = HExec [[47; 120]; [99; 32; 100]] [114].
 Proof. exact helper_executes_good. Qed.
